@@ -3,6 +3,7 @@ import PartituraModel.Model.TimeMap
 import PartituraModel.Model.TimeMapHist
 import PartituraModel.Model.TimeMapCalls
 import PartituraModel.Model.TimeMapScipy
+import PartituraModel.Model.TimeMapApi
 
 open Wire Model.TimeMap
 
@@ -18,15 +19,23 @@ def parseOp : P Op := do
   | "not" => pure Op.useNotated
   | _ => P.fail
 
+/-- a call of the musical-beat API with any argument: `musx` / `setx` = the table argument is not a dict -/
+def parseBOp : P BOp := fun ts => match ts with
+  | "musx" :: r => some (BOp.useMusicalBad, r)
+  | "setx" :: r => some (BOp.setMBBad, r)
+  | _ => match parseOp ts with
+    | some (op, r) => some (BOp.ok op, r)
+    | none => none
+
 /-- `<npoints> <first> <last> <nqd> (t q)* <nops> op* <m1: - | start end>` -/
 def parsePart : P Part := do
   let n ← nat
   let first ← int
   let last ← int
   let qd ← list (do let t ← int; let q ← nat; pure (t, q))
-  let ops ← list parseOp
+  let ops ← list parseBOp
   let m1 ← opt (do let s ← int; let e ← int; pure (s, e))
-  let st := runOps ops
+  let st := (runOpsB ⟨false, []⟩ ops).1
   pure { npoints := n, first := first, last := last, qd := qd, ts := sortTS st.ts, m1 := m1,
          musical := st.musical }
 
@@ -43,6 +52,23 @@ def parseHOp : P HOp := do
   | "span" => do let s ← int; let e ← int; pure (HOp.span s e)
   | "q" => pure HOp.query
   | _ => P.fail
+
+/-- one step of a history of the extended API (round 6) -/
+def parseXOp : P XOp := fun ts => match ts with
+  | "musx" :: r => some (XOp.useMusicalBad, r)
+  | "setx" :: r => some (XOp.setMBBad, r)
+  | "meao" :: r => match int r with
+    | some (s, r') => some (XOp.measureOpen s, r')
+    | none => none
+  | _ => match parseHOp ts with
+    | some (op, r) => some (XOp.h op, r)
+    | none => none
+
+/-- `<q0: - | nat> <n> step*`: `-` = `Part(id)` without `quarter_duration` -/
+def parseXHist : P (Option Nat × List XOp) := do
+  let q0 ← opt nat
+  let h ← list parseXOp
+  pure (q0, h)
 
 /-- argument of any shape: `S <rat>` a scalar, `L <n> item*` a sequence; `depth` bounds the nesting -/
 def parseNested : Nat → P (Nested Rat)
@@ -183,22 +209,27 @@ def handle (ts : List String) : String :=
     | some (p, a) => fmtNested fmtQ (callQD p.qd a)
   | "mbs" :: rest =>
     -- the musical beats stored on every signature after the op history, in timeline order
-    match run (list parseOp) rest with
+    match run (list parseBOp) rest with
     | none => "bad-request"
     | some ops =>
-      let st := runOps ops
+      let st := (runOpsB ⟨false, []⟩ ops).1
       fmtTuple [fmtBool st.musical, fmtList (fun s => fmtTuple [fmtInt s.t, fmtNat s.beats, fmtNat s.beatType, fmtNat s.mb]) (sortTS st.ts)]
   | "hist" :: rest =>
     -- the state `_time_interpolator` reads after an edit/query history, computed by the model alone
-    match run (do let q0 ← nat; let h ← list parseHOp; pure (q0, h)) rest with
+    match run parseXHist rest with
     | none => "bad-request"
-    | some (q0, h) => fmtState (buildPart q0 h)
+    | some (q0, h) => fmtState (xbuildPart q0 h)
+  | "raised" :: rest =>
+    -- which calls of the history raised (a table argument that is not a dict)
+    match run parseXHist rest with
+    | none => "bad-request"
+    | some (q0, h) => fmtList fmtBool (xraised (xinit q0) h)
   | "hmap" :: which :: rest =>
     -- a map of the part the MODEL builds from the history (nothing read off the real object)
-    match run (do let q0 ← nat; let h ← list parseHOp; let xs ← list rat; pure (q0, h, xs)) rest with
+    match run (do let qh ← parseXHist; let xs ← list rat; pure (qh.1, qh.2, xs)) rest with
     | none => "bad-request"
     | some (q0, h, xs) =>
-      let p := buildPart q0 h
+      let p := xbuildPart q0 h
       match which with
       | "bm" => if raises p (beatMode p) then "err" else fmtList fmtVal (xs.map (beatMap p))
       | "qm" => fmtList fmtVal (xs.map (quarterMap p))
